@@ -49,11 +49,18 @@ Fixpoint set_attr (ns local v : str) (l : list attr) : list attr :=
   | (n, k, w) :: r => if str_eqb n ns && str_eqb k local then (n, k, v) :: r else (n, k, w) :: set_attr ns local v r
   end.
 Definition new_node (m : nsmap) (parent : itree) (prefix : option str) (local : str) (ds : list (str * str * str)) : itree :=
-  let ns := match prefix with Some p => opt_default [] (ns_get m p) | None => [] end in      (* namespaces.get(None) is None *)
-  let attrs := fold_left (fun acc d => let '(p, k, v) := d in set_attr (opt_default [] (ns_get m p)) k v acc) ds [] in
+  (* namespaces.get(node_test.prefix or ""): an unprefixed name gets the default namespace of the query (fix 0ffad18) *)
+  let ns := opt_default [] (ns_get m (opt_default [] prefix)) in
+  (* (namespaces[prefix] if prefix else "", local): an unprefixed attribute has no namespace, as in the evaluation *)
+  let attrs := fold_left (fun acc d => let '(p, k, v) := d in
+                                       set_attr (if null p then [] else opt_default [] (ns_get m p)) k v acc) ds [] in
   (* after append_children the new element inherits the parent's in-scope default namespace declaration *)
   let inherited := match in_scope_default (ipayload parent) with Some d => [(XMLNS_NS, [], d)] | None => [] end in
   INode 0%N (PTag ns local (attrs ++ inherited)) [].
+(* the prefixes of the name test and of the derived attributes are declared (fix f228380) *)
+Definition prefixes_declared (m : nsmap) (prefix : option str) (ds : list (str * str * str)) : bool :=
+  forallb (fun p => null p || match ns_get m p with Some _ => true | None => false end)
+          (opt_default [] prefix :: map (fun d => fst (fst d)) ds).
 
 (* ---- the tree after node.append_children(new).  fetch_or_create_by_xpath does not reset the ambient default filters,
    and append_children adds after the LAST VISIBLE child (`self.last_child` under the caller's filters; DESIGN.md
@@ -73,45 +80,65 @@ Fixpoint update_nth {A} (f : A -> A) (i : nat) (l : list A) : list A :=
   | x :: r, O => f x :: r
   | x :: r, S j => x :: update_nth f j r
   end.
-Fixpoint append_at (vis : itree -> bool) (t : itree) (q : npath) (new : itree) : itree :=
+Definition set_kid (t : itree) (i : nat) (k : itree) : itree :=
+  match t with INode id p kids => INode id p (update_nth (fun _ => k) i kids) end.
+Definition insert_kid (t : itree) (i : nat) (k : itree) : itree :=
   match t with
-  | INode i (PTag a b c) kids =>
-      match q with
-      | [] => INode i (PTag a b c) (insert_nth (insert_index vis kids) new kids)
-      | j :: q' => INode i (PTag a b c) (update_nth (fun k => append_at vis k q' new) j kids)
-      end
+  | INode id (PTag a b c) kids => INode id (PTag a b c) (insert_nth i k kids)
   | _ => t
+  end.
+(* the tree with the subtree at relative position q replaced *)
+Fixpoint replace_at (t : itree) (q : npath) (new : itree) : itree :=
+  match q with
+  | [] => new
+  | j :: q' => match t with INode i p kids => INode i p (update_nth (fun k => replace_at k q' new) j kids) end
+  end.
+
+(* ---- _create_by_xpath.  The code walks a pointer `node` down the tree, one step at a time, and mutates at the point
+   where a step has no candidate; functionally: descend into the unique candidate and rebuild on the way back.
+   `t0` is the subtree at the current node, `pos` its position ([] = the _DocumentNode).  The result carries the
+   subtree afterwards (also at the moment of an exception: a fault after a creation leaves the tree CHANGED) and the
+   position of the returned node. *)
+Inductive cres := COk (t' : itree) (p : npath) | CFault (t' : itree) (f : fault).
+
+Fixpoint create_in (vis : itree -> bool) (m : nsmap) (ss : list step) (pos : npath) (t0 : itree) : cres :=
+  match ss with
+  | [] => COk t0 pos
+  | s :: r =>
+      match d_step t0 m s ([(pos, t0)], None) with          (* step.evaluate(node_set=(node,), namespaces) *)
+      | (_, Some f) => CFault t0 f
+      | ([], None) =>
+          match pos, s with
+          | [], _ => CFault t0 (FRejected InvalidOperation)   (* the root doesn't match the first step (fix b721705) *)
+          | _ :: _, LocationStep _ (NameMatchTest prefix local) ps =>
+              match derived_preds ps with
+              | Some ds =>
+                  if negb (prefixes_declared m prefix ds) then CFault t0 (FRejected XPathEvaluationError)
+                  else
+                    let idx := insert_index vis (tkids t0) in
+                    (* node.append_children(new_node); node = new_node; the remaining steps run on the new node *)
+                    match create_in vis m r (pos ++ [idx]) (new_node m t0 prefix local ds) with
+                    | COk n' p => COk (insert_kid t0 idx n') p
+                    | CFault n' f => CFault (insert_kid t0 idx n') f
+                    end
+              | None => CFault t0 (FCrash OtherError)          (* InvalidCodePath *)
+              end
+          | _, _ => CFault t0 (FCrash AssertionError)          (* assert isinstance(node_test, NameMatchTest) *)
+          end
+      | ([x], None) =>
+          match create_in vis m r (fst x) (snd x) with
+          | COk k' p => COk (set_kid t0 (last (fst x) 0) k') p
+          | CFault k' f => CFault (set_kid t0 (last (fst x) 0) k') f
+          end
+      | (_, None) => CFault t0 (FRejected AmbiguousTreeError)
+      end
   end.
 
 Inductive foc_res :=
 | FocOk (root' : itree) (p : npath)            (* the tree afterwards, the position of the returned node *)
 | FocFault (root' : itree) (f : fault).        (* the tree at the moment of the exception *)
 
-(* ---- _create_by_xpath: the loop over the steps; pos = [] is the _DocumentNode *)
-Fixpoint create_loop (vis : itree -> bool) (m : nsmap) (ss : list step) (root : itree) (pos : npath) : foc_res :=
-  match ss with
-  | [] => match pos with [] => FocFault root (FCrash AssertionError) | _ => FocOk root pos end
-  | s :: rest =>
-      let D := docnode root in
-      let node := (pos, opt_default D (subtree D pos)) in
-      match d_step D m s ([node], None) with
-      | (_, Some f) => FocFault root f
-      | ([], None) =>
-          match pos, s with
-          | [], _ => FocFault root (FCrash AssertionError)                  (* assert isinstance(node, TagNode) *)
-          | _ :: q, LocationStep _ (NameMatchTest prefix local) ps =>
-              match derived_preds ps with
-              | Some ds =>
-                  let new := new_node m (snd node) prefix local ds in
-                  create_loop vis m rest (append_at vis root q new) (pos ++ [insert_index vis (tkids (snd node))])
-              | None => FocFault root (FCrash OtherError)                    (* InvalidCodePath *)
-              end
-          | _, _ => FocFault root (FCrash AssertionError)                    (* assert isinstance(node_test, NameMatchTest) *)
-          end
-      | ([x], None) => create_loop vis m rest root (fst x)
-      | (_, None) => FocFault root (FRejected AmbiguousTreeError)
-      end
-  end.
+Definition doc_root (D' : itree) (dflt : itree) : itree := match tkids D' with r :: _ => r | [] => dflt end.
 
 Definition foc (vis : itree -> bool) (root : itree) (m_eval m_create : nsmap) (e : xpath_expr) (ctx : npath) : foc_res :=
   let D := docnode root in
@@ -121,9 +148,18 @@ Definition foc (vis : itree -> bool) (root : itree) (m_eval m_create : nsmap) (e
        | Ok [x] => FocOk root (fst x)
        | Ok (_ :: _ :: _) => FocFault root (FRejected AmbiguousTreeError)
        | Ok [] =>
-           match e with
-           | LocationPath ab ss :: _ => create_loop vis m_create ss root (if ab then [] else ctx)
-           | [] => FocFault root (FCrash OtherError)
+           match e, ctx with
+           | LocationPath true ss :: _, _ =>
+               match create_in vis m_create ss [] D with
+               | COk D' p => FocOk (doc_root D' root) p
+               | CFault D' f => FocFault (doc_root D' root) f
+               end
+           | LocationPath false ss :: _, _ :: q =>
+               match create_in vis m_create ss ctx (opt_default root (subtree root q)) with
+               | COk t' p => FocOk (replace_at root q t') p
+               | CFault t' f => FocFault (replace_at root q t') f
+               end
+           | _, _ => FocFault root (FCrash OtherError)
            end
        end.
 
